@@ -118,7 +118,7 @@ fn run_requests_case(i: u64, rng: &mut Rng, rep: &mut Report, verbose: bool) {
     for k in 0..nops {
         let mut c = gen::gen_call(rng, i * 100 + k as u64, big, true);
         if rng.chance(1, 12) {
-            c = Call::Abandon(match rng.below(4) { 0 => 1, 1 => i32::MAX, 2 => 128, _ => 1 + rng.below(i32::MAX as u64 - 1) as i32 });
+            c = Call::Abandon(match rng.below(5) { 0 => 1, 1 => i32::MAX, 2 => 128, 3 => *rng.pick(&[255, 256, 32_767, 32_768, 40_000, 65_535, 65_536, 8_388_607, 8_388_608, 16_777_216]), _ => 1 + rng.below(i32::MAX as u64 - 1) as i32 });
         }
         let ctrls = if rng.chance(1, 2) { Some(gen::gen_req_controls(rng)) } else { None };
         calls.push((c, ctrls));
@@ -128,9 +128,13 @@ fn run_requests_case(i: u64, rng: &mut Rng, rep: &mut Report, verbose: bool) {
     }
     let rt = runtime(rng.next());
     let calls2 = calls.clone();
+    // the message ID is part of the PDU: half of the cases start somewhere else in the ID range,
+    // in particular just below the octet boundaries of the INTEGER encoding
+    let start_id: i32 = if rng.bool() { 0 } else if rng.bool() { *rng.pick(&[126, 254, 32_766, 39_990, 65_534, 8_388_606, 16_777_214, i32::MAX - 12]) } else { rng.below(i32::MAX as u64 - 20) as i32 };
     let (outs, ids, log) = rt.block_on(async move {
         let c = connect();
         let mut ldap = c.ldap;
+        ldap.verif_set_last_id(start_id);
         let mut server = c.server;
         let srv = tokio::spawn(async move {
             while let Some(w) = server.request().await {
@@ -172,8 +176,8 @@ fn run_requests_case(i: u64, rng: &mut Rng, rep: &mut Report, verbose: bool) {
                 if m.id != table_last as i64 {
                     rep.violation("C02:message-id-differs-from-id-table", format!("wire {} table {}", m.id, table_last), replay.clone());
                 }
-                if m.id != k as i64 + 1 {
-                    rep.violation("C02:message-id-not-sequential-on-fresh-connection", format!("wire {} expected {}", m.id, k + 1), replay.clone());
+                if m.id != start_id as i64 + k as i64 + 1 {
+                    rep.violation("C02:message-id-not-sequential-on-fresh-connection", format!("wire {} expected {} (counter started at {})", m.id, start_id as i64 + k as i64 + 1, start_id), replay.clone());
                 }
                 rep.count(&format!("op_{}", call.kind()), 1);
                 rep.max("max_request_bytes", w.raw.len() as u64);
